@@ -90,8 +90,27 @@ def run_instance(args):
             out["errors"].append(["vacuous", "no feasible path (contradictory precondition)"])
         # conformance: sample inputs satisfying the precondition, run the real code, the harness's own
         # ensures must hold natively too (they were proved), otherwise the engine's model is wrong
-        if refuted == 0 and not ex.errors and ex.symbols:
+        undecided_vcs = [d for d in out["vcs"] if d["result"] not in ("sat", "unsat")]
+        if refuted == 0 and not undecided_vcs and not ex.errors and ex.symbols:
             out["conformance"] = conformance(h, ex, seed, 3 if tier == "quick" else 10)
+        elif undecided_vcs and ex.symbols:
+            # the solvers gave no verdict: look for a concrete witness by running the real code on
+            # solver-sampled inputs that satisfy the precondition (falsification by replay)
+            c = conformance(h, ex, seed, 12 if tier == "quick" else 60, apply_stubs=False)
+            if not c["mismatches"] and ex.assumed:
+                c = conformance(h, ex, seed, 12 if tier == "quick" else 60, apply_stubs=True)
+            out["falsification"] = {k: (len(v) if isinstance(v, list) else v) for k, v in c.items()}
+            if c["mismatches"]:
+                mm = c["mismatches"][0]
+                names = set(mm["failures"])
+                hit = [d for d in undecided_vcs if d["name"] in names] or undecided_vcs[:1]
+                for d in hit[:1]:
+                    d["result"] = "sat"
+                    d["backend"] = d["backend"] + "+concrete-witness"
+                    d["model"] = mm["values"]
+                    d["native"] = dict(status=mm["status"], failures=mm["failures"], unexpected=mm["unexpected"],
+                                       mode="real code on a sampled precondition model")
+                    d["reproduced"] = True
         out["status"] = "done"
     except Exception as e:      # noqa
         out["errors"].append(["crash", traceback.format_exc()[-2000:]])
@@ -99,7 +118,59 @@ def run_instance(args):
     return out
 
 
-def conformance(h, ex, seed, k):
+def _child(task, conn):
+    try:
+        conn.send(run_instance(task))
+    except Exception:      # noqa
+        conn.send(dict(obligation=task[0], instance=task[1], vcs=[], paths=0, errors=[["crash", traceback.format_exc()[-1500:]]],
+                       assumed={}, inlined=[], seconds=0.0, status="crash"))
+    finally:
+        conn.close()
+
+
+def run_tasks(tasks, jobs, hard_timeout):
+    """one process per obligation instance, at most `jobs` at a time, each under a hard wall-clock limit: a solver
+    that ignores its own budget is killed and the instance is reported undecided (never a violation)"""
+    ctx = mp.get_context("spawn")
+    pending = list(tasks)
+    running = []
+    results = {}
+    while pending or running:
+        while pending and len(running) < jobs:
+            t = pending.pop(0)
+            parent, child = ctx.Pipe(duplex=False)
+            p = ctx.Process(target=_child, args=(t, child), daemon=True)
+            p.start()
+            child.close()
+            running.append((t, p, parent, time.time()))
+        still = []
+        for t, p, conn, t0 in running:
+            if conn.poll(0):
+                try:
+                    results[t[:2]] = conn.recv()
+                except EOFError:
+                    results[t[:2]] = dict(obligation=t[0], instance=t[1], vcs=[], paths=0, errors=[["crash", "worker died"]],
+                                          assumed={}, inlined=[], seconds=time.time() - t0, status="crash")
+                p.join(5)
+                if p.is_alive():
+                    p.kill()
+            elif not p.is_alive():
+                results[t[:2]] = dict(obligation=t[0], instance=t[1], vcs=[], paths=0, errors=[["crash", f"worker exited with {p.exitcode}"]],
+                                      assumed={}, inlined=[], seconds=time.time() - t0, status="crash")
+            elif time.time() - t0 > hard_timeout:
+                p.kill()
+                p.join(5)
+                results[t[:2]] = dict(obligation=t[0], instance=t[1], vcs=[dict(name="(whole instance)", result="unknown", seconds=hard_timeout, backend="hard-timeout", path=0, detail="")],
+                                      paths=0, errors=[["timeout", f"instance exceeded the hard limit of {hard_timeout}s"]], assumed={}, inlined=[],
+                                      seconds=time.time() - t0, status="timeout")
+            else:
+                still.append((t, p, conn, t0))
+        running = still
+        time.sleep(0.05)
+    return [results[t[:2]] for t in tasks]
+
+
+def conformance(h, ex, seed, k, apply_stubs=True):
     """k solver-chosen concrete inputs satisfying the harness precondition are run through CPython"""
     from . import harness, sym
     import z3
@@ -144,7 +215,7 @@ def conformance(h, ex, seed, k):
             m = s.model()
             s.pop()
         vals = _values_from_model(m, ex2.symbols)
-        st, nctx = harness.run_native(h, vals, apply_stubs=True)
+        st, nctx = harness.run_native(h, vals, apply_stubs=apply_stubs)
         res["samples"] += 1
         if st == "ok":
             res["ok"] += 1
@@ -178,10 +249,7 @@ def check_property(prop, tier, seed, jobs):
         for label, _ in o.instances(tier):
             tasks.append((o.id, label, tier, seed))
     bnds = [b for b in registry.BOUNDED.values() if prop in b.props]
-    results = []
-    if tasks:
-        with mp.get_context("spawn").Pool(min(jobs, len(tasks))) as pool:
-            results = pool.map(run_instance, tasks, chunksize=1)
+    results = run_tasks(tasks, jobs, 150 if tier == "quick" else 1500)
     bres = []
     for b in bnds:
         tb = time.time()
